@@ -45,11 +45,23 @@ Section Proofs.
   Definition ann_phase (s : st) : bool := chan_ready (hsk s) || their_ready (hsk s).
   Definition has_key (a : list (Z * point)) (k : Z) : bool := existsb (fun kp : Z * point => fst kp =? k) a.
 
-  (** the relation between machine state and policy state *)
-  Record R (s : st) (g : pol) : Prop := mkR {
+  (** the relation between machine state and policy state; [Rc] is the part that survives a close *)
+  Record Rc (s : st) (g : pol) : Prop := mkRc {
     R_hn : holder_next s <= INITIAL - 1;
     R_vh : p_vh g = holder_next s + 1;
-    R_signed : p_signed g = true -> closed s = true;
+    R_rel : holder_next s + 2 <= p_rel g;
+    (* the commitment in the monitor's funding claim is validated, unreleased, and remembered as signed *)
+    R_ms : forall k, mon_signed (ext s) = Some k ->
+           holder_next s + 1 <= k /\ k < p_rel g /\ exists m, p_sh g = Some m /\ k <= m
+  }.
+
+  Record R (s : st) (g : pol) : Prop := mkR {
+    R_c : Rc s g;
+    (* nothing was ever signed for broadcast unless the monitor is locked *)
+    R_sh1 : closed s = false -> mon_signed (ext s) = None -> p_sh g = None;
+    (* a locked monitor whose channel moved on never completes an update again *)
+    R_sh2 : closed s = false -> forall m, p_sh g = Some m ->
+            m <= holder_next s + 1 \/ mon_in_progress s = true;
     R_mpraa : closed s = false -> mp_raa s = true -> holder_next s < INITIAL - 1;
     R_st : closed s = false -> p_st g = cp_next s + 2;
     R_rv : closed s = false -> p_rv g = cp_next s + 2;
@@ -70,109 +82,217 @@ Section Proofs.
   Lemma R_init batch p0 :
     exists g, chk_all (pol_init point) (init_log secret point p0) = Some g /\ R (init secret point batch p0) g.
   Proof.
-    exists (mkPol point INITIAL (INITIAL + 1) (INITIAL + 1) [(INITIAL, p0)] false).
+    exists (mkPol point INITIAL (INITIAL + 1) (INITIAL + 1) [(INITIAL, p0)] (INITIAL + 1) None).
     split; [reflexivity|].
-    constructor; cbn [init holder_next cp_next mp_raa cp_cur_point cp_next_point closed hsk
-                      p_vh p_st p_rv p_ann p_signed]; unfold ann_phase;
-      cbn [init hsk chan_ready their_ready orb]; intros; try lia; try discriminate.
+    constructor; [constructor|..]; cbn [init holder_next cp_next mp_raa cp_cur_point cp_next_point closed hsk ext mon_signed
+                      mon_in_progress p_vh p_st p_rv p_ann p_rel p_sh]; unfold ann_phase;
+      cbn [init hsk chan_ready their_ready orb]; intros; try lia; try discriminate; try reflexivity.
     - split; [reflexivity|]. exists p0. split; [reflexivity|].
       replace (INITIAL - 1 + 1) with INITIAL by lia. apply announced_cons_same.
     - unfold has_key in *. cbn [existsb fst] in *. rewrite orb_false_r in *. lia.
   Qed.
 
   Ltac sf := cbn [holder_next cp_next awaiting_rr disconnected mon_in_progress mp_raa mp_cs raa_first
-                   cp_cur_point cp_next_point closed hsk p_vh p_rv p_st p_ann p_signed fst snd
-                   build_commitment upd_mon set_mp_raa set_mp_cs set_hs] in *.
+                   cp_cur_point cp_next_point closed hsk ext stfu_sent quiescent mon_signed
+                   p_vh p_rv p_st p_ann p_rel p_sh fst snd
+                   build_commitment upd_mon set_mp_raa set_mp_cs set_hs set_mon_signed set_stfu] in *.
 
-  (** R only looks at these components *)
+  (** R only looks at these components (and is monotone in [mon_in_progress]) *)
   Definition hflags (s : st) := (chan_ready (hsk s), our_ready (hsk s), their_ready (hsk s), wfb (hsk s)).
-  Definition core (s : st) := (holder_next s, cp_next s, mp_raa s, cp_cur_point s, cp_next_point s, closed s, hflags s).
+  Definition core (s : st) := (holder_next s, cp_next s, mp_raa s, cp_cur_point s, cp_next_point s, closed s, hflags s,
+                               mon_signed (ext s)).
+  Definition core_ok (s s' : st) : Prop :=
+    core s = core s' /\ (mon_in_progress s = true -> mon_in_progress s' = true).
 
-  Ltac core_eq := unfold core, hflags; repeat match goal with x := _ : RevokeLog.st _ |- _ => subst x end; sf; rewrite ?orb_false_r, ?orb_true_r;
-    repeat match goal with H : closed _ = false |- _ => rewrite H; clear H end; reflexivity.
+  Ltac core_eq := unfold core_ok, core, hflags; repeat match goal with x := _ : RevokeLog.st _ _ |- _ => subst x end; sf;
+    rewrite ?orb_false_r, ?orb_true_r;
+    repeat match goal with H : closed _ = false |- _ => rewrite H; clear H end;
+    split; [reflexivity|intros; first [assumption|reflexivity]].
 
-  Lemma R_core s s' g : core s = core s' -> R s g -> R s' g.
-  Proof.
-    unfold core, hflags. intros E HR. injection E as E1 E2 E3 E4 E5 E6 E7 E8 E9 E10. destruct HR.
-    constructor; unfold ann_phase in *;
-      rewrite <- ?E1, <- ?E2, <- ?E3, <- ?E4, <- ?E5, <- ?E6, <- ?E7, <- ?E8, <- ?E9, <- ?E10; assumption.
-  Qed.
+  Lemma Rc_core s s' g : holder_next s = holder_next s' -> mon_signed (ext s) = mon_signed (ext s') -> Rc s g -> Rc s' g.
+  Proof. intros E1 E2 [H1 H2 H3 H4]. constructor; rewrite <- ?E1, <- ?E2; assumption. Qed.
 
   (** clearing [mp_raa] (or keeping it) never hurts *)
   Lemma R_mpraa_weaken s s' g :
-    (holder_next s, cp_next s, cp_cur_point s, cp_next_point s, closed s, hflags s) =
-    (holder_next s', cp_next s', cp_cur_point s', cp_next_point s', closed s', hflags s') ->
+    (holder_next s, cp_next s, cp_cur_point s, cp_next_point s, closed s, hflags s, mon_signed (ext s)) =
+    (holder_next s', cp_next s', cp_cur_point s', cp_next_point s', closed s', hflags s', mon_signed (ext s')) ->
     (mp_raa s' = true -> mp_raa s = true \/ holder_next s < INITIAL - 1) ->
+    (mon_in_progress s = true -> mon_in_progress s' = true) ->
     R s g -> R s' g.
   Proof.
-    unfold hflags. intros E Hm HR. injection E as E1 E2 E4 E5 E6 E7 E8 E9 E10. destruct HR.
+    unfold hflags. intros E Hm Hmip HR. injection E as E1 E2 E4 E5 E6 E7 E8 E9 E10 E11.
+    destruct HR as [HRc Hsh1 Hsh2 Hmp Hst Hrv Hcur Hnxt Hpre Hkeys Hflags].
     constructor; unfold ann_phase in *;
-      rewrite <- ?E1, <- ?E2, <- ?E4, <- ?E5, <- ?E6, <- ?E7, <- ?E8, <- ?E9, <- ?E10; try assumption.
-    intros Hc Hm'. destruct (Hm Hm'); auto.
+      rewrite <- ?E1, <- ?E2, <- ?E4, <- ?E5, <- ?E6, <- ?E7, <- ?E8, <- ?E9, <- ?E10, <- ?E11; try assumption.
+    - eapply Rc_core; [exact E1|exact E11|assumption].
+    - intros Hc m Hm'. destruct (Hsh2 Hc m Hm') as [H|H]; [left; exact H|right; exact (Hmip H)].
+    - intros Hc Hm'. destruct (Hm Hm'); auto.
   Qed.
 
-  (** [close]: whatever was emitted so far, signing the current holder commitment is accepted *)
+  Lemma R_core s s' g : core_ok s s' -> R s g -> R s' g.
+  Proof.
+    unfold core_ok, core. intros [E Hmip] HR.
+    assert (E3 : mp_raa s = mp_raa s') by (injection E; intros; assumption).
+    eapply R_mpraa_weaken; [| |exact Hmip|exact HR].
+    - injection E; intros; congruence.
+    - rewrite E3. auto.
+  Qed.
+
+  (** the policy state after signing holder commitment [k] *)
+  Definition g_sh (g : pol) (k : Z) : pol :=
+    mkPol point (p_vh g) (p_rv g) (p_st g) (p_ann g) (p_rel g) (sh_max (p_sh g) k).
+  Definition g_rel (g : pol) (k : Z) : pol :=
+    mkPol point (p_vh g) (p_rv g) (p_st g) (p_ann g) k (p_sh g).
+
+  Lemma sh_max_ge o k : exists m, sh_max o k = Some m /\ k <= m /\ (forall m0, o = Some m0 -> m0 <= m).
+  Proof.
+    destruct o as [m0|]; cbn [sh_max].
+    - exists (Z.max m0 k). split; [reflexivity|]. split; [lia|]. intros ? E. injection E as <-. lia.
+    - exists k. split; [reflexivity|]. split; [lia|]. discriminate.
+  Qed.
+
+  (** the monitor signs [k], a validated unreleased commitment *)
+  Lemma chk_sign_holder s g k : Rc s g -> holder_next s + 1 <= k -> k < p_rel g ->
+    chk g (SignHolder k) = Some (g_sh g k).
+  Proof.
+    intros HRc H1 H2. cbn [chk]. pose proof (R_vh _ _ HRc) as Hv.
+    replace (p_vh g <=? k) with true by lia. replace (k <? p_rel g) with true by lia. reflexivity.
+  Qed.
+
+  (** [mon_sign]: accepted in every state, closed or not *)
+  Lemma mon_sign_sim s g fresh : R s g ->
+    exists g', chk_all g (snd (mon_sign secret point s fresh)) = Some g' /\ R (fst (mon_sign secret point s fresh)) g'.
+  Proof.
+    intros HR. pose proof (R_c _ _ HR) as HRc. unfold mon_sign.
+    destruct (mon_signed (ext s)) as [k|] eqn:Ems.
+    - destruct (R_ms _ _ HRc k Ems) as (Hk1 & Hk2 & m & Em & Hkm).
+      destruct fresh; cbn [fst snd chk_all]; [exists g; split; [reflexivity|exact HR]|].
+      rewrite (chk_sign_holder s g k HRc Hk1 Hk2). exists (g_sh g k). split; [reflexivity|].
+      assert (Esh : sh_max (p_sh g) k = Some m) by (rewrite Em; cbn [sh_max]; f_equal; lia).
+      destruct HR as [_ Hsh1 Hsh2 Hmp Hst Hrv Hcur Hnxt Hpre Hkeys Hflags]. constructor; unfold g_sh; sf; try assumption.
+      + destruct HRc as [H1 H2 H3 H4]. constructor; sf; try assumption. rewrite Esh, <- Em. assumption.
+      + intros Hc En. congruence.
+      + rewrite Esh, <- Em. assumption.
+    - destruct (fresh || closed s) eqn:Ef; cbn [fst snd chk_all]; [|exists g; split; [reflexivity|exact HR]].
+      assert (Hk2 : holder_next s + 1 < p_rel g) by (pose proof (R_rel _ _ HRc); lia).
+      rewrite (chk_sign_holder s g (holder_next s + 1) HRc ltac:(lia) Hk2).
+      exists (g_sh g (holder_next s + 1)). split; [reflexivity|].
+      destruct (sh_max_ge (p_sh g) (holder_next s + 1)) as (m & Esh & Hge & Hold).
+      destruct HR as [_ Hsh1 Hsh2 Hmp Hst Hrv Hcur Hnxt Hpre Hkeys Hflags]. constructor; unfold g_sh; sf; try assumption.
+      + destruct HRc as [H1 H2 H3 H4]. constructor; sf; try assumption.
+        intros k E. injection E as <-. split; [lia|]. split; [lia|]. exists m. split; [exact Esh|exact Hge].
+      + intros Hc En. discriminate.
+      + intros Hc m' Em'. rewrite Esh in Em'. injection Em' as <-.
+        (* nothing was signed before: the fresh signature is of the current commitment *)
+        rewrite (Hsh1 Hc Ems) in Esh. cbn [sh_max] in Esh. injection Esh as <-. left. lia.
+  Qed.
+
+  (** [close]: whatever was emitted so far, the close (signing the current holder commitment
+      unless a claim exists) is accepted *)
   Lemma close_sim s g evs g1 :
-    chk_all g evs = Some g1 -> p_vh g1 = holder_next s + 1 -> holder_next s <= INITIAL - 1 ->
+    chk_all g evs = Some g1 -> Rc s g1 ->
     exists g', chk_all g (snd (close s evs)) = Some g' /\ R (fst (close s evs)) g'.
   Proof.
-    intros Hc Hv Hn. unfold close. cbn [fst snd].
-    destruct (chan_ready (hsk s) || negb (wfb (hsk s))).
-    - rewrite chk_all_app, Hc. cbn [chk_all chk].
-      rewrite Hv, Z.eqb_refl. eexists. split; [reflexivity|].
-      constructor; sf; intros; try lia; try discriminate; try reflexivity.
-    - exists g1. split; [exact Hc|].
-      constructor; sf; intros; try lia; try discriminate; try reflexivity.
+    intros Hc HRc. unfold close. cbv zeta.
+    destruct (mon_signed (ext s)) as [k|] eqn:Ems.
+    - cbn [fst snd]. exists g1. split; [exact Hc|].
+      constructor; sf; intros; try discriminate.
+      eapply Rc_core; [| |exact HRc]; reflexivity.
+    - destruct (chan_ready (hsk s) || negb (wfb (hsk s))); cbn [fst snd].
+      + rewrite chk_all_app, Hc. cbn [chk_all].
+        assert (Hk2 : holder_next s + 1 < p_rel g1) by (pose proof (R_rel _ _ HRc); lia).
+        rewrite (chk_sign_holder s g1 (holder_next s + 1) HRc ltac:(lia) Hk2).
+        eexists. split; [reflexivity|].
+        destruct (sh_max_ge (p_sh g1) (holder_next s + 1)) as (m & Esh & Hge & Hold).
+        constructor; unfold g_sh; sf; intros; try discriminate.
+        destruct HRc as [H1 H2 H3 H4]. constructor; sf; try assumption.
+        intros k E. injection E as <-. split; [lia|]. split; [lia|]. exists m. split; [exact Esh|exact Hge].
+      + exists g1. split; [exact Hc|].
+        constructor; sf; intros; try discriminate.
+        eapply Rc_core; [| |exact HRc]; reflexivity.
   Qed.
 
-  Lemma restore_sim s g : closed s = false -> R s g ->
+  Lemma restore_sim s g : closed s = false -> mon_signed (ext s) = None -> R s g ->
     exists g', chk_all g (snd (restore s)) = Some g' /\ R (fst (restore s)) g'.
   Proof.
-    intros Hc HR. pose proof HR as HR0. destruct HR. unfold restore.
+    intros Hc Hun HR. pose proof HR as HR0. destruct HR as [HRc Hsh1 Hsh2 Hmp Hst Hrv Hcur Hnxt Hpre Hkeys Hflags].
+    pose proof (Hsh1 Hc Hun) as Hnone.
+    unfold restore.
+    (* the state after: everything [R] looks at is unchanged except the cleared flags *)
+    assert (Hstate : forall g', Rc s g' -> p_sh g' = None -> p_st g' = p_st g -> p_rv g' = p_rv g -> p_ann g' = p_ann g ->
+      R (mkSt secret point (holder_next s) (cp_next s) (awaiting_rr s) (disconnected s) false false false
+              (raa_first s) (cp_cur_point s) (cp_next_point s) (closed s) (hsk s) (ext s)) g').
+    { intros g' HRc' Hn' E1 E2 E3. constructor; unfold ann_phase in *; sf; rewrite ?E1, ?E2, ?E3; try assumption.
+      - eapply Rc_core; [| |exact HRc']; reflexivity.
+      - intros _ _. exact Hn'.
+      - intros _ m Em. congruence.
+      - discriminate. }
     destruct (disconnected s).
-    - cbn [fst snd chk_all]. exists g. split; [reflexivity|].
-      eapply R_mpraa_weaken; [| |exact HR0]; sf; [reflexivity|discriminate].
+    - cbn [fst snd chk_all]. exists g. split; [reflexivity|]. apply Hstate; auto.
     - cbn [fst snd].
-      assert (Hsigned : p_signed g = false).
-      { destruct (p_signed g) eqn:E; [|reflexivity]. rewrite R_signed0 in Hc by reflexivity. discriminate. }
-      exists g. split.
-      + rewrite chk_all_app.
-        assert (E1 : chk_all g (if mp_raa s then last_raa secret point s else []) = Some g).
-        { destruct (mp_raa s) eqn:Em; [|reflexivity]. unfold last_raa. cbn [chk_all chk].
-          rewrite Hsigned, R_vh0. specialize (R_mpraa0 Hc eq_refl).
-          replace (holder_next s + 2 =? holder_next s + 1 + 1) with true by lia.
-          replace (holder_next s + 2 <=? INITIAL) with true by lia. reflexivity. }
-        rewrite E1. destruct (mp_cs s); [|reflexivity]. unfold last_cs. cbn [chk_all chk].
-        rewrite Hsigned, (R_st0 Hc). replace (cp_next s =? cp_next s + 2 - 2) with true by lia. reflexivity.
-      + eapply R_mpraa_weaken; [| |exact HR0]; sf; [reflexivity|discriminate].
+      destruct (mp_raa s) eqn:Em.
+      + (* the revoke_and_ack goes out: Release (holder_next + 2) *)
+        specialize (Hmp Hc eq_refl).
+        assert (E1 : chk g (Release (holder_next s + 2)) = Some (g_rel g (holder_next s + 2))).
+        { cbn [chk]. pose proof (R_vh _ _ HRc) as Hv.
+          replace (holder_next s + 2 =? p_vh g + 1) with true by lia.
+          replace (holder_next s + 2 <=? INITIAL) with true by lia.
+          replace (sh_below (p_sh g) (holder_next s + 2)) with true by (rewrite Hnone; reflexivity). reflexivity. }
+        exists (g_rel g (holder_next s + 2)). split.
+        * unfold last_raa. cbn [app chk_all]. rewrite E1.
+          destruct (mp_cs s); [|reflexivity]. unfold last_cs. cbn [chk_all chk]. unfold g_rel. sf.
+          rewrite (Hst Hc). replace (cp_next s =? cp_next s + 2 - 2) with true by lia. reflexivity.
+        * apply Hstate; unfold g_rel; sf; auto.
+          destruct HRc as [H1 H2 H3 H4]. constructor; sf; try assumption; try lia. intros k E. congruence.
+      + exists g. split; [|apply Hstate; auto].
+        cbn [app]. destruct (mp_cs s); [|reflexivity]. unfold last_cs. cbn [chk_all chk].
+        rewrite (Hst Hc). replace (cp_next s =? cp_next s + 2 - 2) with true by lia. reflexivity.
   Qed.
 
   Lemma maybe_restore_sim sync s g0 g evs : closed s = false ->
     chk_all g0 evs = Some g -> R s g ->
     exists g', chk_all g0 (snd (maybe_restore sync s evs)) = Some g' /\ R (fst (maybe_restore sync s evs)) g'.
   Proof.
-    intros Hc He HR. unfold maybe_restore. destruct sync.
-    - destruct (restore_sim s g Hc HR) as (g' & Hg' & HR'). destruct (restore s) as [s' evs'].
-      cbn [fst snd] in *. exists g'. split; [|exact HR']. rewrite chk_all_app, He. exact Hg'.
+    intros Hc He HR. unfold maybe_restore, mon_locked. destruct sync; cbn [andb].
+    - destruct (mon_signed (ext s)) eqn:Ems; cbn [negb].
+      + cbn [fst snd]. exists g. split; assumption.
+      + destruct (restore_sim s g Hc Ems HR) as (g' & Hg' & HR'). destruct (restore s) as [s' evs'].
+        cbn [fst snd] in *. exists g'. split; [|exact HR']. rewrite chk_all_app, He. exact Hg'.
     - cbn [fst snd]. exists g. split; assumption.
   Qed.
 
-  Ltac not_signed HR Hc :=
-    let E := fresh "E" in
-    match goal with |- context [p_signed ?g] =>
-      assert (Hsigned : p_signed g = false)
-        by (destruct (p_signed g) eqn:E; [rewrite (R_signed _ _ HR) in Hc by reflexivity; discriminate|reflexivity])
-    end.
+  Ltac cl := match goal with HRc : Rc ?s ?g |- _ =>
+    apply (close_sim s g [] g); [reflexivity|exact HRc] end.
 
-  Ltac cl := match goal with Hvh : p_vh ?g = holder_next ?s + 1 |- _ =>
-    apply (close_sim s g [] g); [reflexivity|exact Hvh|assumption] end.
+  Ltac rc HRc := let H1 := fresh in let H2 := fresh in let H3 := fresh in let H4 := fresh in
+    destruct HRc as [H1 H2 H3 H4]; constructor; sf; first [assumption|lia|idtac].
+
+  (** the revoke_and_ack (re)transmission [Release (holder_next + 2)] is accepted whenever no
+      monitor update is pending *)
+  Lemma release_sim s g : R s g -> closed s = false -> mon_in_progress s = false ->
+    holder_next s < INITIAL - 1 ->
+    chk g (Release (holder_next s + 2)) = Some (g_rel g (holder_next s + 2)) /\
+    R s (g_rel g (holder_next s + 2)).
+  Proof.
+    intros HR Hc Hmip Hlt. destruct HR as [HRc Hsh1 Hsh2 Hmp Hst Hrv Hcur Hnxt Hpre Hkeys Hflags].
+    assert (Hbelow : forall m, p_sh g = Some m -> m <= holder_next s + 1).
+    { intros m Em. destruct (Hsh2 Hc m Em) as [H|H]; [exact H|congruence]. }
+    split.
+    - cbn [chk]. pose proof (R_vh _ _ HRc) as Hv.
+      replace (holder_next s + 2 =? p_vh g + 1) with true by lia.
+      replace (holder_next s + 2 <=? INITIAL) with true by lia.
+      replace (sh_below (p_sh g) (holder_next s + 2)) with true; [reflexivity|].
+      destruct (p_sh g) as [m|] eqn:Em; cbn [sh_below]; [|reflexivity]. specialize (Hbelow m eq_refl). lia.
+    - constructor; unfold g_rel; sf; try assumption.
+      destruct HRc as [H1 H2 H3 H4]. constructor; sf; try assumption; try lia.
+      intros k Ek. destruct (H4 k Ek) as (Ha & Hb & m & Em & Hkm). specialize (Hbelow m Em).
+      split; [exact Ha|]. split; [lia|]. exists m. split; assumption.
+  Qed.
 
   Lemma recv_channel_ready_sim s g p : R s g -> closed s = false ->
     exists g', chk_all g (snd (recv_channel_ready s p)) = Some g' /\ R (fst (recv_channel_ready s p)) g'.
   Proof.
-    intros HR0 Hc. pose proof HR0 as HR. destruct HR as [Hhn Hvh Hsg Hmp Hst Hrv Hcur Hnxt Hpre Hkeys Hflags].
-    assert (Hsigned : p_signed g = false).
-    { destruct (p_signed g) eqn:E; [rewrite Hsg in Hc by reflexivity; discriminate|reflexivity]. }
+    intros HR0 Hc. pose proof HR0 as HR. destruct HR as [HRc Hsh1 Hsh2 Hmp Hst Hrv Hcur Hnxt Hpre Hkeys Hflags].
     unfold RevokeLog.recv_channel_ready.
     destruct (disconnected s); [cbn [fst snd chk_all]; exists g; split; [reflexivity|]; eapply R_core; [|exact HR0]; core_eq|].
     assert (Hrecon : exists g', chk_all g (snd (if opt_point_eqb point point_eqb
@@ -197,8 +317,8 @@ Section Proofs.
       destruct (Hpre Hc Hph) as (Hcn & pn & Epn & Apn).
       assert (Hfresh : existsb (fun kp : Z * point => fst kp =? cp_next s) (p_ann g) = false).
       { destruct (existsb _ (p_ann g)) eqn:E; [|reflexivity]. apply (Hkeys Hc) in E. rewrite Hph in E. lia. }
-      cbn [chk_all chk]. rewrite Hsigned, Hfresh. eexists. split; [reflexivity|].
-      constructor; unfold ann_phase; sf; cbn [chan_ready their_ready our_ready wfb orb]; intros; try lia; try discriminate; auto.
+      cbn [chk_all chk]. rewrite Hfresh. eexists. split; [reflexivity|].
+      constructor; [rc HRc|..]; unfold ann_phase; sf; cbn [chan_ready their_ready our_ready wfb orb]; intros; try lia; try discriminate; auto.
       * exists pn. split; [exact Epn|]. apply announced_cons_mono. exact Apn.
       * exists p. split; [reflexivity|]. apply announced_cons_same.
       * unfold has_key in *. cbn [existsb fst] in *. destruct (Z.eqb_spec (cp_next s) k); [lia|]. cbn [orb] in *.
@@ -208,8 +328,8 @@ Section Proofs.
       destruct (Hpre Hc Hph) as (Hcn & pn & Epn & Apn).
       assert (Hfresh : existsb (fun kp : Z * point => fst kp =? cp_next s) (p_ann g) = false).
       { destruct (existsb _ (p_ann g)) eqn:E; [|reflexivity]. apply (Hkeys Hc) in E. rewrite Hph in E. lia. }
-      cbn [chk_all chk]. rewrite Hsigned, Hfresh. eexists. split; [reflexivity|].
-      constructor; unfold ann_phase; sf; cbn [chan_ready their_ready our_ready wfb orb]; intros; try lia; try discriminate; auto.
+      cbn [chk_all chk]. rewrite Hfresh. eexists. split; [reflexivity|].
+      constructor; [rc HRc|..]; unfold ann_phase; sf; cbn [chan_ready their_ready our_ready wfb orb]; intros; try lia; try discriminate; auto.
       * exists pn. split; [exact Epn|]. apply announced_cons_mono. exact Apn.
       * exists p. split; [reflexivity|]. apply announced_cons_same.
       * unfold has_key in *. cbn [existsb fst] in *. destruct (Z.eqb_spec (cp_next s) k); [lia|]. cbn [orb] in *.
@@ -220,33 +340,32 @@ Section Proofs.
     exists g', chk_all g (snd (reest_core secret point s nl nr sc)) = Some g' /\
                R (fst (reest_core secret point s nl nr sc)) g'.
   Proof.
-    intros HR0 Hc. pose proof HR0 as HR. destruct HR as [Hhn Hvh Hsg Hmp Hst Hrv Hcur Hnxt Hpre Hkeys Hflags].
-    assert (Hsigned : p_signed g = false).
-    { destruct (p_signed g) eqn:E; [rewrite Hsg in Hc by reflexivity; discriminate|reflexivity]. }
+    intros HR0 Hc. pose proof HR0 as HR. destruct HR as [HRc Hsh1 Hsh2 Hmp Hst Hrv Hcur Hnxt Hpre Hkeys Hflags].
+    pose proof (R_vh _ _ HRc) as Hvh. pose proof (R_hn _ _ HRc) as Hhn.
     unfold reest_core. rewrite ?Hc.
     cbv zeta.
     destruct ((nl <? 0) || (nr <? 0)) eqn:Hrange; [exists g; split; [reflexivity|exact HR0]|].
-    destruct (negb (disconnected s)); [apply (close_sim s g [] g); [reflexivity|exact Hvh|exact Hhn]|].
-    destruct ((nl =? 0) || (INITIAL <=? nl) || (INITIAL <=? nr)); [apply (close_sim s g [] g); [reflexivity|exact Hvh|exact Hhn]|].
+    destruct (negb (disconnected s)); [apply (close_sim s g [] g); [reflexivity|exact HRc]|].
+    destruct ((nl =? 0) || (INITIAL <=? nl) || (INITIAL <=? nr)); [apply (close_sim s g [] g); [reflexivity|exact HRc]|].
     destruct ((0 <? nr) && match sc with SecGarbage => true | _ => false end);
-      [apply (close_sim s g [] g); [reflexivity|exact Hvh|exact Hhn]|].
+      [apply (close_sim s g [] g); [reflexivity|exact HRc]|].
     destruct ((0 <? nr) && (INITIAL - (holder_next s + 1) <? nr)).
     { destruct (match sc with SecMatch => true | _ => false end);
-        [|apply (close_sim s g [] g); [reflexivity|exact Hvh|exact Hhn]].
+        [|apply (close_sim s g [] g); [reflexivity|exact HRc]].
       cbn [fst snd chk_all]. exists g. split; [reflexivity|].
-      constructor; sf; intros; try assumption; try discriminate; try reflexivity. }
+      constructor; [rc HRc|..]; sf; intros; try discriminate. }
     destruct ((0 <? nr) && ((nr =? INITIAL - (holder_next s + 1)) || (nr + 1 =? INITIAL - (holder_next s + 1)))
               && negb match sc with SecMatch => true | _ => false end);
-      [apply (close_sim s g [] g); [reflexivity|exact Hvh|exact Hhn]|].
+      [apply (close_sim s g [] g); [reflexivity|exact HRc]|].
     destruct (Z.ltb_spec (nr + 1) (INITIAL - (holder_next s + 1))) as [_|Hnr];
       [exists g; split; [reflexivity|exact HR0]|].
     set (s0 := mkSt secret point (holder_next s) (cp_next s) (awaiting_rr s) false (mon_in_progress s)
-                    (mp_raa s) (mp_cs s) (raa_first s) (cp_cur_point s) (cp_next_point s) false (hsk s)).
+                    (mp_raa s) (mp_cs s) (raa_first s) (cp_cur_point s) (cp_next_point s) false (hsk s) (ext s)).
     assert (HR1 : R s0 g) by (eapply R_core; [|exact HR0]; core_eq).
     assert (Hc0 : closed s0 = false) by reflexivity.
     destruct (chan_ready (hsk s)) eqn:Hready; cbn [negb].
     2:{ destruct ((negb (our_ready (hsk s)) || mon_in_progress s) && negb (nr =? 0));
-          [apply (close_sim s0 g [] g); [reflexivity|exact Hvh|exact Hhn]|].
+          [apply (close_sim s0 g [] g); [reflexivity|exact (R_c _ _ HR1)]|].
         cbn [fst snd chk_all]. exists g. split; [reflexivity|exact HR1]. }
     (* required_revoke *)
     assert (Hrev : match reest_revoke secret point s0 nr (INITIAL - (holder_next s + 1)) with
@@ -257,18 +376,18 @@ Section Proofs.
     { unfold reest_revoke.
       destruct (Z.eqb_spec nr (INITIAL - (holder_next s + 1))) as [Enr|Nnr].
       - split; [reflexivity|]. exists g. split; [reflexivity|].
-        eapply R_mpraa_weaken; [| |exact HR1]; sf; [reflexivity|discriminate].
+        eapply R_mpraa_weaken; [| | |exact HR1]; sf; [reflexivity|discriminate|auto].
       - destruct (Z.eqb_spec (nr + 1) (INITIAL - (holder_next s + 1))) as [Enr1|_]; [|exact I].
         assert (Hlt : holder_next s < INITIAL - 1) by lia.
-        destruct (mon_in_progress s0).
+        destruct (mon_in_progress s0) eqn:Emip.
         + split; [reflexivity|]. exists g. split; [reflexivity|].
-          eapply R_mpraa_weaken; [| |exact HR1]; sf; [reflexivity|intros _; right; exact Hlt].
-        + split; [reflexivity|]. exists g. split; [|exact HR1].
-          unfold last_raa. cbn [chk_all chk holder_next s0]. rewrite Hsigned, Hvh.
-          replace (holder_next s + 2 =? holder_next s + 1 + 1) with true by lia.
-          replace (holder_next s + 2 <=? INITIAL) with true by lia. reflexivity. }
+          eapply R_mpraa_weaken; [| | |exact HR1]; sf; [reflexivity|intros _; right; exact Hlt|auto].
+        + split; [reflexivity|].
+          destruct (release_sim s0 g HR1 eq_refl Emip Hlt) as [Hrel HRrel].
+          exists (g_rel g (holder_next s + 2)). split; [|exact HRrel].
+          unfold last_raa. cbn [chk_all]. cbn [holder_next s0] in *. rewrite Hrel. reflexivity. }
     destruct (reest_revoke secret point s0 nr (INITIAL - (holder_next s + 1))) as [[s1 raa_evs]|];
-      [|apply (close_sim s0 g [] g); [reflexivity|exact Hvh|exact Hhn]].
+      [|apply (close_sim s0 g [] g); [reflexivity|exact (R_c _ _ HR1)]].
     destruct Hrev as (Hc1 & g1 & Hg1 & HRs1).
     (* commitment retransmission *)
     unfold reest_commit.
@@ -279,31 +398,28 @@ Section Proofs.
       - cbn [fst snd]. exists g1. split; [exact Hg1|]. eapply R_core; [|exact HRs1]. core_eq.
       - cbn [fst snd]. exists g1. split; [|exact HRs1].
         rewrite chk_all_app, Hg1. unfold last_cs. cbn [chk_all chk].
-        assert (Hs1 : p_signed g1 = false).
-        { destruct (p_signed g1) eqn:E; [pose proof (R_signed _ _ HRs1 E); congruence|reflexivity]. }
-        rewrite Hs1, (R_st _ _ HRs1 Hc1).
+        rewrite (R_st _ _ HRs1 Hc1).
         replace (cp_next s1 =? cp_next s1 + 2 - 2) with true by lia. reflexivity. }
-    eapply close_sim; [exact Hg1|exact (R_vh _ _ HRs1)|exact (R_hn _ _ HRs1)].
+    eapply close_sim; [exact Hg1|exact (R_c _ _ HRs1)].
   Qed.
 
   Lemma step_sim s g o : R s g ->
     exists g', chk_all g (snd (step s o)) = Some g' /\ R (fst (step s o)) g'.
   Proof.
     intros HR. unfold step. destruct (closed s) eqn:Hc.
-    { (* closed: only re-signing *)
-      destruct o; cbn [fst snd chk_all]; try (exists g; split; [reflexivity|exact HR]).
-      cbn [chk]. rewrite (R_vh _ _ HR), Z.eqb_refl. eexists. split; [reflexivity|].
-      destruct HR. constructor; sf; intros; try assumption; try congruence. }
-    pose proof HR as HR0. destruct HR as [Hhn Hvh Hsg Hmp Hst Hrv Hcur Hnxt Hpre Hkeys Hflags].
-    assert (Hsigned : p_signed g = false).
-    { destruct (p_signed g) eqn:E; [rewrite Hsg in Hc by reflexivity; discriminate|reflexivity]. }
-    destruct o as [sync|sig_ok nsig nnd htlc_ok need_cs sync|sec np chain_ok commit sync|sync| |p| | | | |nl nr sc| | | ].
+    { (* closed: only the monitor signs *)
+      destruct o; cbn [fst snd chk_all]; try (exists g; split; [reflexivity|exact HR]);
+        apply mon_sign_sim; exact HR. }
+    pose proof HR as HR0. destruct HR as [HRc Hsh1 Hsh2 Hmp Hst Hrv Hcur Hnxt Hpre Hkeys Hflags].
+    pose proof (R_vh _ _ HRc) as Hvh. pose proof (R_hn _ _ HRc) as Hhn.
+    destruct o as [sync|sig_ok nsig nnd htlc_ok need_cs sync|sec np chain_ok commit sync|sync| |p| | | | |nl nr sc| | | | | | | | ].
     - (* OCommit *)
       destruct (can_generate_new_commitment secret point s).
       + apply (maybe_restore_sim sync _ g g []); [exact Hc|reflexivity|].
         eapply R_core; [|exact HR0]. core_eq.
       + exists g. split; [reflexivity|exact HR0].
     - (* ORecvCS *)
+      destruct (quiescent (ext s)); [exists g; split; [reflexivity|exact HR0]|].
       destruct (chan_ready (hsk s)) eqn:Hready; cbn [negb]; [|cl].
       destruct (disconnected s); [cl|].
       destruct sig_ok; cbn [negb]; [|cl].
@@ -311,12 +427,15 @@ Section Proofs.
       destruct htlc_ok; cbn [negb]; [|cl].
       cbv zeta. sf. eapply maybe_restore_sim.
       + destruct (need_cs && negb (awaiting_rr s)); sf; reflexivity.
-      + cbn [chk_all chk]. rewrite Hsigned, Hvh.
-        replace (holder_next s =? holder_next s + 1 - 1) with true by lia.
+      + cbn [chk_all chk].
+        replace (holder_next s =? p_vh g - 1) with true by lia.
         subst nsig. rewrite Z.eqb_refl. reflexivity.
-      + destruct (need_cs && negb (awaiting_rr s)); constructor; unfold ann_phase in *; sf; intros; try lia;
+      + destruct (need_cs && negb (awaiting_rr s)); (constructor; [rc HRc|..]); unfold ann_phase in *; sf; intros; try lia;
           try discriminate; try congruence; auto.
+        all: match goal with H4 : forall k, mon_signed _ = Some k -> _, Hk : mon_signed _ = Some ?k |- _ =>
+               destruct (H4 k Hk) as (Ha & Hb & Hm) end; (split; [lia|]); split; assumption.
     - (* ORecvRAA *)
+      destruct (quiescent (ext s)); [exists g; split; [reflexivity|exact HR0]|].
       destruct (chan_ready (hsk s)) eqn:Hready; cbn [negb]; [|cl].
       destruct (disconnected s); [cl|].
       assert (Hph : ann_phase s = true) by (unfold ann_phase; rewrite Hready; reflexivity).
@@ -325,8 +444,8 @@ Section Proofs.
       apply point_eqb_eq in Epq. subst pc.
       destruct (awaiting_rr s); cbn [negb]; [|cl].
       assert (Evr : chk g (ValidateRevocation (cp_next s + 1)) =
-                    Some (mkPol point (p_vh g) (cp_next s + 1) (p_st g) (p_ann g) false)).
-      { cbn [chk]. rewrite Hsigned, (Hrv Hc), (Hst Hc).
+                    Some (mkPol point (p_vh g) (cp_next s + 1) (p_st g) (p_ann g) (p_rel g) (p_sh g))).
+      { cbn [chk]. rewrite (Hrv Hc), (Hst Hc).
         replace (cp_next s + 1 =? cp_next s + 2 - 1) with true by lia. rewrite Z.eqb_refl. reflexivity. }
       assert (Hfresh : existsb (fun kp : Z * point => fst kp =? cp_next s - 1) (p_ann g) = false).
       { destruct (existsb _ (p_ann g)) eqn:E; [|reflexivity].
@@ -334,18 +453,18 @@ Section Proofs.
       destruct chain_ok; cbn [negb].
       + cbv zeta. sf. eapply maybe_restore_sim.
         * destruct commit; sf; reflexivity.
-        * cbn [chk_all app]. rewrite Evr. cbn [chk p_signed p_rv p_st p_ann p_vh].
+        * cbn [chk_all app]. rewrite Evr. cbn [chk p_rv p_st p_ann p_vh p_rel p_sh].
           rewrite Z.eqb_refl, (Hst Hc). replace (cp_next s + 2 =? cp_next s + 1 + 1) with true by lia.
-          rewrite Apc. cbn [andb]. cbn [chk_all chk p_signed p_rv p_st p_ann p_vh]. rewrite Hfresh. reflexivity.
+          rewrite Apc. cbn [andb]. cbn [chk_all chk p_rv p_st p_ann p_vh p_rel p_sh]. rewrite Hfresh. reflexivity.
         * set (h' := if cp_next s + 1 =? INITIAL - 1
                      then mkHs secret point true (our_ready (hsk s)) (their_ready (hsk s)) (wfb (hsk s)) (Some sec) (pending_ready (hsk s))
                      else hsk s).
           assert (Hr' : chan_ready h' = true) by (unfold h'; destruct (cp_next s + 1 =? INITIAL - 1); [reflexivity|exact Hready]).
           assert (HRn : R (mkSt secret point (holder_next s) (cp_next s - 1) false false (mon_in_progress s)
-                                (mp_raa s) (mp_cs s) (raa_first s) (cp_next_point s) (Some np) false h')
+                                (mp_raa s) (mp_cs s) (raa_first s) (cp_next_point s) (Some np) false h' (ext s))
                           (mkPol point (p_vh g) (cp_next s + 1) (cp_next s + 1)
-                                 ((cp_next s - 1, np) :: p_ann g) false)).
-          { constructor; unfold ann_phase; sf; rewrite ?Hr'; cbn [orb]; intros; try lia; try discriminate; try congruence; auto.
+                                 ((cp_next s - 1, np) :: p_ann g) (p_rel g) (p_sh g))).
+          { constructor; [rc HRc|..]; unfold ann_phase; sf; rewrite ?Hr'; cbn [orb]; intros; try lia; try discriminate; try congruence; auto.
             - exists pn. split; [exact Epn|]. apply announced_cons_mono.
               replace (cp_next s - 1 + 1) with (cp_next s) by lia. exact Apn.
             - exists np. split; [reflexivity|]. apply announced_cons_same.
@@ -353,13 +472,14 @@ Section Proofs.
               destruct (Z.eqb_spec (cp_next s - 1) k); [lia|]. cbn [orb] in *.
               match goal with H : existsb _ _ = true |- _ => apply (Hkeys Hc) in H; rewrite Hph in H end. lia. }
           eapply R_core; [|exact HRn]. subst h'. destruct commit; core_eq.
-      + eapply close_sim; [cbn [chk_all]; rewrite Evr; reflexivity|sf; exact Hvh|exact Hhn].
+      + eapply close_sim; [cbn [chk_all]; rewrite Evr; reflexivity|]. rc HRc.
     - (* OMonUpdate *)
       apply (maybe_restore_sim sync _ g g []); [exact Hc|reflexivity|].
       eapply R_core; [|exact HR0]. core_eq.
     - (* OMonitorDone *)
-      destruct (mon_in_progress s); [apply restore_sim; assumption|].
-      exists g. split; [reflexivity|exact HR0].
+      unfold mon_locked. destruct (mon_in_progress s); cbn [andb]; [|exists g; split; [reflexivity|exact HR0]].
+      destruct (mon_signed (ext s)) eqn:Ems; cbn [negb]; [exists g; split; [reflexivity|exact HR0]|].
+      apply restore_sim; assumption.
     - (* ORecvChannelReady *)
       apply recv_channel_ready_sim; assumption.
     - (* OOurChannelReady *)
@@ -367,11 +487,11 @@ Section Proofs.
       destruct (our_ready (hsk s)) eqn:Hour, (their_ready (hsk s)) eqn:Htheir, (wfb (hsk s)) eqn:Hw;
         cbn [andb negb fst snd chk_all]; try (exists g; split; [reflexivity|exact HR0]);
         (exists g; split; [reflexivity|]);
-        constructor; unfold ann_phase in *; sf; rewrite ?Hready, ?Htheir, ?Hour in *;
+        (constructor; [rc HRc|..]); unfold ann_phase in *; sf; rewrite ?Hready, ?Htheir, ?Hour in *;
         cbn [chan_ready their_ready our_ready wfb orb] in *; intros; try lia; try discriminate; auto.
     - (* OBatchReady *)
       cbv zeta. cbn [fst snd chk_all]. exists g. split; [reflexivity|].
-      constructor; unfold ann_phase in *; sf; cbn [chan_ready their_ready our_ready wfb] in *; intros; try lia;
+      constructor; [rc HRc|..]; unfold ann_phase in *; sf; cbn [chan_ready their_ready our_ready wfb] in *; intros; try lia;
         try discriminate; auto.
       destruct (Hflags Hc ltac:(assumption) ltac:(assumption)). auto.
     - (* ODisconnect *)
@@ -391,12 +511,25 @@ Section Proofs.
       destruct (recv_channel_ready s1' pp) as [s2 evs2]. cbn [fst snd] in *.
       exists g2. split; [rewrite chk_all_app, Hg1; exact Hg2|exact HR2].
     - (* OForceClose *)
-      apply (close_sim s g [] g); [reflexivity|exact Hvh|exact Hhn].
+      cl.
     - (* OChainClose *)
       cbn [fst snd chk_all]. exists g. split; [reflexivity|].
-      constructor; sf; intros; try assumption; try discriminate; try reflexivity.
+      constructor; [rc HRc|..]; sf; intros; try discriminate.
     - (* OResign *)
-      exists g. split; [reflexivity|exact HR0].
+      apply mon_sign_sim; exact HR0.
+    - (* OMonBroadcast *)
+      apply mon_sign_sim; exact HR0.
+    - (* OProcessEvents *)
+      destruct (mon_locked secret point s); cbn [fst snd chk_all]; (exists g; split; [reflexivity|]); [|exact HR0].
+      constructor; [rc HRc|..]; sf; intros; try discriminate.
+    - (* OStfuSent *)
+      destruct (chan_ready (hsk s)); cbn [fst snd chk_all]; (exists g; split; [reflexivity|]); [|exact HR0].
+      eapply R_core; [|exact HR0]. core_eq.
+    - (* OQuiescent *)
+      destruct (chan_ready (hsk s)); cbn [fst snd chk_all]; (exists g; split; [reflexivity|]); [|exact HR0].
+      eapply R_core; [|exact HR0]. core_eq.
+    - (* OExitQuiescence *)
+      cbn [fst snd chk_all]. exists g. split; [reflexivity|]. eapply R_core; [|exact HR0]. core_eq.
   Qed.
 
   (** every run, from the initial state, is accepted *)
@@ -436,21 +569,21 @@ Section Proofs.
   (** inversion of one step of the checker *)
   Lemma chk_inv g e g2 : chk g e = Some g2 ->
     match e with
-    | SignHolder k => k = p_vh g /\ g2 = mkPol point (p_vh g) (p_rv g) (p_st g) (p_ann g) true
-    | ValidateHolder k nsig nnd => p_signed g = false /\ k = p_vh g - 1 /\ nsig = nnd /\
-                          g2 = mkPol point k (p_rv g) (p_st g) (p_ann g) false
-    | Release k => p_signed g = false /\ k = p_vh g + 1 /\ k <= INITIAL /\ g2 = g
-    | SignCounterparty k => p_signed g = false /\ k = p_st g - 2 /\ g2 = g
-    | ValidateRevocation k => p_signed g = false /\ k = p_rv g - 1 /\ p_st g = p_rv g /\
-                              g2 = mkPol point (p_vh g) k (p_st g) (p_ann g) false
-    | StoreSecret k sec => p_signed g = false /\ k = p_rv g /\ p_st g = k + 1 /\
+    | SignHolder k => p_vh g <= k /\ k < p_rel g /\ g2 = g_sh g k
+    | ValidateHolder k nsig nnd => k = p_vh g - 1 /\ nsig = nnd /\
+                          g2 = mkPol point k (p_rv g) (p_st g) (p_ann g) (p_rel g) (p_sh g)
+    | Release k => k = p_vh g + 1 /\ k <= INITIAL /\ sh_below (p_sh g) k = true /\ g2 = g_rel g k
+    | SignCounterparty k => k = p_st g - 2 /\ g2 = g
+    | ValidateRevocation k => k = p_rv g - 1 /\ p_st g = p_rv g /\
+                              g2 = mkPol point (p_vh g) k (p_st g) (p_ann g) (p_rel g) (p_sh g)
+    | StoreSecret k sec => k = p_rv g /\ p_st g = k + 1 /\
                            announced (p_ann g) k (pub sec) = true /\
-                           g2 = mkPol point (p_vh g) (p_rv g) k (p_ann g) false
-    | Announce k p => p_signed g = false /\ has_key (p_ann g) k = false /\
-                      g2 = mkPol point (p_vh g) (p_rv g) (p_st g) ((k, p) :: p_ann g) false
+                           g2 = mkPol point (p_vh g) (p_rv g) k (p_ann g) (p_rel g) (p_sh g)
+    | Announce k p => has_key (p_ann g) k = false /\
+                      g2 = mkPol point (p_vh g) (p_rv g) (p_st g) ((k, p) :: p_ann g) (p_rel g) (p_sh g)
     end.
   Proof.
-    destruct e; cbn [RevokeLog.chk]; destruct (p_signed g) eqn:Es; try discriminate;
+    destruct e; cbn [RevokeLog.chk];
       repeat match goal with
              | |- context [if ?c then _ else _] => destruct c eqn:?
              end; try discriminate; intros E; injection E as <-;
@@ -476,32 +609,60 @@ Section Proofs.
     - injection Hc as <-. rewrite !count_nil. lia.
     - destruct (chk g e) as [g1|] eqn:E; [|discriminate]. specialize (IH g1 g' Hc).
       apply chk_inv in E. rewrite !count_cons.
-      destruct e; cbn [is_vh is_store is_vr]; intuition (subst; sf; lia).
+      destruct e; cbn [is_vh is_store is_vr]; unfold g_sh, g_rel in *; intuition (subst; sf; lia).
   Qed.
 
-  Lemma signed_sticky : forall l g g', chk_all g l = Some g' -> p_signed g = true ->
-    p_signed g' = true /\ forall e, In e l -> is_sign_holder e = true.
+  (** released numbers only go down: every number released in a log is at least the final [p_rel] *)
+  Lemma rel_mono : forall l g g', chk_all g l = Some g' -> p_vh g + 1 <= p_rel g ->
+    p_vh g' + 1 <= p_rel g' /\ p_rel g' <= p_rel g /\ forall j, In (Release j) l -> p_rel g' <= j.
   Proof.
-    induction l as [|e l IH]; intros g g' Hc Hs; cbn [RevokeLog.chk_all] in Hc.
-    - injection Hc as <-. split; [exact Hs|]. intros e [].
+    induction l as [|e l IH]; intros g g' Hc HI; cbn [RevokeLog.chk_all] in Hc.
+    - injection Hc as <-. split; [exact HI|]. split; [lia|]. intros j [].
     - destruct (chk g e) as [g1|] eqn:E; [|discriminate]. apply chk_inv in E.
-      destruct e; try (destruct E as [E _]; congruence).
-      destruct E as [_ ->]. destruct (IH _ _ Hc eq_refl) as [H1 H2]. split; [exact H1|].
-      intros e [<-|Hin]; [reflexivity|apply H2; exact Hin].
+      assert (H1 : p_vh g1 + 1 <= p_rel g1 /\ p_rel g1 <= p_rel g /\ (forall j, e = Release j -> p_rel g1 = j)).
+      { destruct e; unfold g_sh, g_rel in *; intuition (subst; sf; try lia; try congruence).
+        all: match goal with H : _ = Release _ |- _ => injection H as <-; reflexivity end. }
+      destruct H1 as (HI1 & Hle & Hrel). destruct (IH g1 g' Hc HI1) as (HI' & Hle' & Hin').
+      split; [exact HI'|]. split; [lia|]. intros j [->|Hin]; [rewrite <- (Hrel j eq_refl); exact Hle'|exact (Hin' j Hin)].
   Qed.
 
-  Lemma sign_holder_signs : forall l g g' k, chk_all g l = Some g' -> In (SignHolder k) l ->
-    p_signed g' = true /\ k <= p_vh g.
+  (** the highest number signed for broadcast is remembered *)
+  Lemma sh_mono : forall l g g', chk_all g l = Some g' ->
+    (forall m, p_sh g = Some m -> exists m', p_sh g' = Some m' /\ m <= m') /\
+    (forall k, In (SignHolder k) l -> exists m', p_sh g' = Some m' /\ k <= m').
   Proof.
-    induction l as [|e l IH]; intros g g' k Hc Hin; [destruct Hin|]. cbn [RevokeLog.chk_all] in Hc.
-    destruct (chk g e) as [g1|] eqn:E; [|discriminate].
-    pose proof (chk_all_counts [e] g g1) as Hcnt. cbn [RevokeLog.chk_all] in Hcnt. rewrite E in Hcnt.
-    specialize (Hcnt eq_refl). destruct Hcnt as (Hv & _ & _).
-    assert (0 <= count is_vh [e]) by (unfold count; lia).
-    destruct Hin as [->|Hin].
-    - apply chk_inv in E. destruct E as [-> ->].
-      destruct (signed_sticky _ _ _ Hc eq_refl) as [H1 _]. split; [exact H1|lia].
-    - destruct (IH _ _ _ Hc Hin) as [H1 H2]. split; [exact H1|lia].
+    induction l as [|e l IH]; intros g g' Hc; cbn [RevokeLog.chk_all] in Hc.
+    - injection Hc as <-. split; [intros m Em; exists m; split; [exact Em|lia]|intros k []].
+    - destruct (chk g e) as [g1|] eqn:E; [|discriminate]. apply chk_inv in E.
+      destruct (IH g1 g' Hc) as (Hold & Hnew).
+      assert (H1 : (forall m, p_sh g = Some m -> exists m', p_sh g1 = Some m' /\ m <= m') /\
+                   (forall k, e = SignHolder k -> exists m', p_sh g1 = Some m' /\ k <= m')).
+      { destruct e; unfold g_sh, g_rel in *.
+        4:{ destruct E as (_ & _ & ->). sf. destruct (sh_max_ge (p_sh g) k) as (m' & Em' & Hk & Hall).
+            split; [intros m Em; exists m'; split; [exact Em'|exact (Hall m Em)]|].
+            intros k' Ek. injection Ek as <-. exists m'. split; assumption. }
+        all: split; [|discriminate]; intros m Em; exists m; split; [|lia]; intuition (subst; sf; assumption). }
+      destruct H1 as (H1a & H1b). split.
+      + intros m Em. destruct (H1a m Em) as (m1 & Em1 & Hle1). destruct (Hold m1 Em1) as (m' & Em' & Hle').
+        exists m'. split; [exact Em'|lia].
+      + intros k [->|Hin]; [|exact (Hnew k Hin)].
+        destruct (H1b k eq_refl) as (m1 & Em1 & Hle1). destruct (Hold m1 Em1) as (m' & Em' & Hle').
+        exists m'. split; [exact Em'|lia].
+  Qed.
+
+  (** every number between the final and the initial [p_vh] was validated, fully signed, in this log *)
+  Lemma vh_all_witness : forall l g g', chk_all g l = Some g' ->
+    forall j, p_vh g' <= j < p_vh g -> exists n, In (ValidateHolder j n n) l.
+  Proof.
+    induction l as [|e l IH]; intros g g' Hc j Hj; cbn [RevokeLog.chk_all] in Hc.
+    - injection Hc as <-. lia.
+    - destruct (chk g e) as [g1|] eqn:E; [|discriminate]. apply chk_inv in E.
+      destruct e; try (assert (Evh : p_vh g1 = p_vh g) by (unfold g_sh, g_rel in *; intuition (subst; reflexivity));
+                       destruct (IH _ _ Hc j ltac:(lia)) as (n & Hin); exists n; right; exact Hin).
+      destruct E as (Ek & En & ->).
+      destruct (Z.eq_dec j k) as [->|Hne].
+      + exists nnd. left. subst nsig. reflexivity.
+      + destruct (IH _ _ Hc j ltac:(sf; lia)) as (n & Hin). exists n. right. exact Hin.
   Qed.
 
   (** the latest validated number was validated in this log, unless it was validated before *)
@@ -512,8 +673,8 @@ Section Proofs.
     - injection Hc as <-. left. reflexivity.
     - destruct (chk g e) as [g1|] eqn:E; [|discriminate].
       destruct (IH _ _ Hc) as [Heq|(n & Hin)]; [|right; exists n; right; exact Hin].
-      apply chk_inv in E. destruct e; try (left; rewrite Heq; intuition (subst; reflexivity)).
-      right. destruct E as (_ & -> & -> & ->). exists nnd. left. rewrite Heq. reflexivity.
+      apply chk_inv in E. destruct e; try (left; rewrite Heq; unfold g_sh, g_rel in *; intuition (subst; reflexivity)).
+      right. destruct E as (-> & -> & ->). exists nnd. left. rewrite Heq. reflexivity.
   Qed.
 
   Lemma rv_witness : forall l g g', chk_all g l = Some g' ->
@@ -523,8 +684,8 @@ Section Proofs.
     - injection Hc as <-. left. reflexivity.
     - destruct (chk g e) as [g1|] eqn:E; [|discriminate].
       destruct (IH _ _ Hc) as [Heq|Hin]; [|right; right; exact Hin].
-      apply chk_inv in E. destruct e; try (left; rewrite Heq; intuition (subst; reflexivity)).
-      right. left. rewrite Heq. destruct E as (_ & -> & _ & ->). reflexivity.
+      apply chk_inv in E. destruct e; try (left; rewrite Heq; unfold g_sh, g_rel in *; intuition (subst; reflexivity)).
+      right. left. rewrite Heq. destruct E as (-> & _ & ->). reflexivity.
   Qed.
 
   (** every number between the final and the initial [p_st] was stored in this log *)
@@ -534,9 +695,9 @@ Section Proofs.
     induction l as [|e l IH]; intros g g' Hc j Hj; cbn [RevokeLog.chk_all] in Hc.
     - injection Hc as <-. lia.
     - destruct (chk g e) as [g1|] eqn:E; [|discriminate]. apply chk_inv in E.
-      destruct e; try (assert (Est : p_st g1 = p_st g) by (intuition (subst; reflexivity));
+      destruct e; try (assert (Est : p_st g1 = p_st g) by (unfold g_sh, g_rel in *; intuition (subst; reflexivity));
                        destruct (IH _ _ Hc j ltac:(lia)) as (sec & Hin); exists sec; right; exact Hin).
-      destruct E as (_ & Ek & Est & _ & ->).
+      destruct E as (Ek & Est & _ & ->).
       destruct (Z.eq_dec j k) as [->|Hne].
       + exists s. left. reflexivity.
       + destruct (IH _ _ Hc j ltac:(sf; lia)) as (sec & Hin). exists sec. right. exact Hin.
@@ -550,8 +711,8 @@ Section Proofs.
     - injection Hc as <-. left. exact Hin.
     - destruct (chk g e) as [g1|] eqn:E; [|discriminate]. apply chk_inv in E.
       destruct (IH _ _ Hc kp Hin) as [Hg1|Hl]; [|right; right; exact Hl].
-      destruct e; try (left; intuition (subst; exact Hg1)).
-      destruct E as (_ & _ & ->). cbn [p_ann] in Hg1. destruct Hg1 as [<-|Hg]; [right; left; reflexivity|left; exact Hg].
+      destruct e; try (left; unfold g_sh, g_rel in *; intuition (subst; exact Hg1)).
+      destruct E as (_ & ->). cbn [p_ann] in Hg1. destruct Hg1 as [<-|Hg]; [right; left; reflexivity|left; exact Hg].
   Qed.
 
   (** announcements are recorded and never forgotten *)
@@ -560,15 +721,15 @@ Section Proofs.
     induction l as [|e l IH]; intros g g' Hc kp Hin; cbn [RevokeLog.chk_all] in Hc.
     - injection Hc as <-. exact Hin.
     - destruct (chk g e) as [g1|] eqn:E; [|discriminate]. apply chk_inv in E.
-      apply (IH _ _ Hc). destruct e; try (intuition (subst; exact Hin)).
-      destruct E as (_ & _ & ->). right. exact Hin.
+      apply (IH _ _ Hc). destruct e; try (unfold g_sh, g_rel in *; intuition (subst; exact Hin)).
+      destruct E as (_ & ->). right. exact Hin.
   Qed.
 
   Lemma ann_recorded : forall l g g' k p, chk_all g l = Some g' -> In (Announce k p) l -> In (k, p) (p_ann g').
   Proof.
     induction l as [|e l IH]; intros g g' k p Hc Hin; [destruct Hin|]. cbn [RevokeLog.chk_all] in Hc.
     destruct (chk g e) as [g1|] eqn:E; [|discriminate]. destruct Hin as [->|Hin]; [|apply (IH _ _ _ _ Hc Hin)].
-    apply chk_inv in E. destruct E as (_ & _ & ->). apply (ann_mono _ _ _ Hc). left. reflexivity.
+    apply chk_inv in E. destruct E as (_ & ->). apply (ann_mono _ _ _ Hc). left. reflexivity.
   Qed.
 
   Lemma announced_In a k p : announced a k p = true -> In (k, p) a.
@@ -584,38 +745,52 @@ Section Proofs.
     Variable gfin : pol.
     Hypothesis Hacc : chk_all (pol_init point) log = Some gfin.
 
+    Lemma init_inv : p_vh (pol_init point) + 1 <= p_rel (pol_init point).
+    Proof. cbn [pol_init p_vh p_rel]. lia. Qed.
+
     Lemma acc_release pre k post : log = pre ++ Release k :: post ->
       (exists n, In (ValidateHolder (k - 1) n n) pre) /\
-      (forall k', ~ In (SignHolder k') pre) /\
+      (forall k', In (SignHolder k') pre -> k' < k) /\
       (forall k', In (SignHolder k') post -> k' < k) /\
       k = INITIAL + 1 - count is_vh pre.
     Proof.
       intros ->. destruct (chk_all_split _ _ _ _ _ Hacc) as (g1 & g2 & Hpre & He & Hpost).
-      apply chk_inv in He. destruct He as (Hs & Hk & Hle & ->).
+      apply chk_inv in He. destruct He as (Hk & Hle & Hbelow & ->).
       destruct (chk_all_counts _ _ _ Hpre) as (Hv & _ & _). cbn [pol_init p_vh] in Hv.
+      destruct (rel_mono _ _ _ Hpre init_inv) as (HI1 & _ & _).
       split; [|split; [|split]].
       - destruct (vh_witness _ _ _ Hpre) as [Heq|Hin]; [cbn [pol_init p_vh] in Heq; lia|].
         replace (k - 1) with (p_vh g1) by lia. exact Hin.
-      - intros k' Hin. destruct (sign_holder_signs _ _ _ _ Hpre Hin) as [Hs' _]. congruence.
-      - intros k' Hin. destruct (sign_holder_signs _ _ _ _ Hpost Hin) as [_ Hb]. lia.
+      - intros k' Hin. destruct (proj2 (sh_mono _ _ _ Hpre) k' Hin) as (m & Em & Hkm).
+        rewrite Em in Hbelow. cbn [sh_below] in Hbelow. lia.
+      - intros k' Hin. apply in_split in Hin. destruct Hin as (l1 & l2 & ->).
+        destruct (chk_all_split _ _ _ _ _ Hpost) as (h1 & h2 & Hl1 & Hs & Hl2).
+        apply chk_inv in Hs. destruct Hs as (_ & Hlt & _).
+        assert (HI2 : p_vh (g_rel g1 k) + 1 <= p_rel (g_rel g1 k)) by (unfold g_rel; sf; lia).
+        destruct (rel_mono _ _ _ Hl1 HI2) as (_ & Hle' & _). unfold g_rel in Hle'. sf. lia.
       - lia.
     Qed.
 
     Lemma acc_sign_holder pre k post : log = pre ++ SignHolder k :: post ->
-      k = INITIAL - count is_vh pre /\
+      INITIAL - count is_vh pre <= k <= INITIAL /\
+      (k = INITIAL \/ exists n, In (ValidateHolder k n n) pre) /\
       (forall j, In (Release j) pre -> k < j) /\
-      (forall e, In e post -> is_sign_holder e = true).
+      (forall j, In (Release j) post -> k < j).
     Proof.
       intros ->. destruct (chk_all_split _ _ _ _ _ Hacc) as (g1 & g2 & Hpre & He & Hpost).
-      apply chk_inv in He. destruct He as (Hk & ->).
+      apply chk_inv in He. destruct He as (Hk1 & Hk2 & ->).
       destruct (chk_all_counts _ _ _ Hpre) as (Hv & _ & _). cbn [pol_init p_vh] in Hv.
-      split; [lia|]. split.
+      destruct (rel_mono _ _ _ Hpre init_inv) as (_ & Hrel & Hrels). cbn [pol_init p_rel] in Hrel.
+      split; [lia|]. split; [|split].
+      - destruct (Z.eq_dec k INITIAL) as [->|Hne]; [left; reflexivity|right].
+        apply (vh_all_witness _ _ _ Hpre). cbn [pol_init p_vh]. lia.
+      - intros j Hin. specialize (Hrels j Hin). lia.
       - intros j Hin. apply in_split in Hin. destruct Hin as (l1 & l2 & ->).
-        destruct (chk_all_split _ _ _ _ _ Hpre) as (h1 & h2 & Hl1 & Hr & Hl2).
-        apply chk_inv in Hr. destruct Hr as (_ & Hj & _ & ->).
-        destruct (chk_all_counts _ _ _ Hl2) as (Hv2 & _ & _).
-        assert (0 <= count is_vh l2) by (unfold count; lia). lia.
-      - apply (signed_sticky _ _ _ Hpost). reflexivity.
+        destruct (chk_all_split _ _ _ _ _ Hpost) as (h1 & h2 & Hl1 & Hr & Hl2).
+        apply chk_inv in Hr. destruct Hr as (_ & _ & Hbelow & _).
+        destruct (sh_max_ge (p_sh g1) k) as (m & Em & Hkm & _).
+        destruct (proj1 (sh_mono _ _ _ Hl1) m) as (m' & Em' & Hmm'); [unfold g_sh; sf; exact Em|].
+        rewrite Em' in Hbelow. cbn [sh_below] in Hbelow. lia.
     Qed.
 
     Lemma acc_sign_counterparty pre k post : log = pre ++ SignCounterparty k :: post ->
@@ -623,7 +798,7 @@ Section Proofs.
       k = INITIAL - 1 - count is_store pre.
     Proof.
       intros ->. destruct (chk_all_split _ _ _ _ _ Hacc) as (g1 & g2 & Hpre & He & Hpost).
-      apply chk_inv in He. destruct He as (Hs & Hk & ->).
+      apply chk_inv in He. destruct He as (Hk & ->).
       destruct (chk_all_counts _ _ _ Hpre) as (_ & Hst & _). cbn [pol_init p_st] in Hst.
       split; [|lia]. intros j Hj. apply (store_witness _ _ _ Hpre). cbn [pol_init p_st]. lia.
     Qed.
@@ -632,7 +807,7 @@ Section Proofs.
       k = INITIAL - 1 - count is_vh pre /\ nsig = nnd.
     Proof.
       intros ->. destruct (chk_all_split _ _ _ _ _ Hacc) as (g1 & g2 & Hpre & He & Hpost).
-      apply chk_inv in He. destruct He as (Hs & Hk & Hn & ->).
+      apply chk_inv in He. destruct He as (Hk & Hn & ->).
       destruct (chk_all_counts _ _ _ Hpre) as (Hv & _ & _). cbn [pol_init p_vh] in Hv. split; [lia|exact Hn].
     Qed.
 
@@ -640,7 +815,7 @@ Section Proofs.
       k = INITIAL - count is_vr pre /\ count is_store pre = count is_vr pre.
     Proof.
       intros ->. destruct (chk_all_split _ _ _ _ _ Hacc) as (g1 & g2 & Hpre & He & Hpost).
-      apply chk_inv in He. destruct He as (Hs & Hk & Heq & ->).
+      apply chk_inv in He. destruct He as (Hk & Heq & ->).
       destruct (chk_all_counts _ _ _ Hpre) as (_ & Hst & Hrv). cbn [pol_init p_st p_rv] in *. lia.
     Qed.
 
@@ -648,7 +823,7 @@ Section Proofs.
       forall p', ~ In (Announce k p') pre.
     Proof.
       intros -> p' Hin. destruct (chk_all_split _ _ _ _ _ Hacc) as (g1 & g2 & Hpre & He & Hpost).
-      apply chk_inv in He. destruct He as (_ & Hfresh & _).
+      apply chk_inv in He. destruct He as (Hfresh & _).
       pose proof (ann_recorded _ _ _ _ _ Hpre Hin) as Hrec.
       unfold has_key in Hfresh. assert (Ht : existsb (fun kp : Z * point => fst kp =? k) (p_ann g1) = true).
       { apply existsb_exists. exists (k, p'). split; [exact Hrec|]. apply Z.eqb_refl. }
@@ -661,7 +836,7 @@ Section Proofs.
       k = INITIAL - count is_store pre.
     Proof.
       intros ->. destruct (chk_all_split _ _ _ _ _ Hacc) as (g1 & g2 & Hpre & He & Hpost).
-      apply chk_inv in He. destruct He as (Hs & Hk & Hst & Hann & ->).
+      apply chk_inv in He. destruct He as (Hk & Hst & Hann & ->).
       destruct (chk_all_counts _ _ _ Hpre) as (_ & Hst' & Hrv'). cbn [pol_init p_st p_rv] in *.
       split; [|split; [|lia]].
       - apply announced_In in Hann.
@@ -674,6 +849,21 @@ Section Proofs.
 
   (* ---------------------------------------------------------------------------------------- *)
   (** * The reestablish decision table: the channel resumes only from {ours, ours - 1} *)
+
+  Lemma close_closed s evs : closed (fst (close s evs)) = true.
+  Proof.
+    unfold close. destruct (mon_signed (ext s)); [reflexivity|].
+    destruct (chan_ready (hsk s) || negb (wfb (hsk s))); reflexivity.
+  Qed.
+
+  Lemma close_facts s evs :
+    cp_cur_point (fst (close s evs)) = cp_cur_point s /\ cp_next_point (fst (close s evs)) = cp_next_point s /\
+    hsk (fst (close s evs)) = hsk s /\ (forall k q, ~ In (Announce k q) evs -> ~ In (Announce k q) (snd (close s evs))).
+  Proof.
+    unfold close. destruct (mon_signed (ext s)); [cbn [fst snd]; sf; auto|].
+    destruct (chan_ready (hsk s) || negb (wfb (hsk s))); cbn [fst snd]; sf; repeat split; auto.
+    intros k q Hn Hin. apply in_app_or in Hin. destruct Hin as [Hin|[Hin|[]]]; [exact (Hn Hin)|discriminate Hin].
+  Qed.
 
   Lemma reest_resumes_only_adjacent s nl nr sc :
     closed s = false -> disconnected s = true -> chan_ready (hsk s) = true ->
@@ -690,14 +880,14 @@ Section Proofs.
   Proof.
     intros Hc Hd Hready. cbv zeta. unfold reest_core. rewrite Hd. cbn [negb].
     destruct ((nl <? 0) || (nr <? 0)) eqn:Hrange; [cbn [fst snd]; congruence|].
-    destruct ((nl =? 0) || (INITIAL <=? nl) || (INITIAL <=? nr)); [cbn [fst snd closed close]; discriminate|].
+    destruct ((nl =? 0) || (INITIAL <=? nl) || (INITIAL <=? nr)); [rewrite ?close_closed; cbn [fst snd closed]; discriminate|].
     destruct ((0 <? nr) && match sc with SecGarbage => true | _ => false end) eqn:Hg;
-      [cbn [fst snd closed close]; discriminate|].
+      [rewrite ?close_closed; cbn [fst snd closed]; discriminate|].
     destruct ((0 <? nr) && (INITIAL - (holder_next s + 1) <? nr)) eqn:Hbehind.
-    { destruct sc; cbn [fst snd closed close]; discriminate. }
+    { destruct sc; rewrite ?close_closed; cbn [fst snd closed]; discriminate. }
     destruct ((0 <? nr) && ((nr =? INITIAL - (holder_next s + 1)) || (nr + 1 =? INITIAL - (holder_next s + 1)))
               && negb match sc with SecMatch => true | _ => false end) eqn:Hsec;
-      [cbn [fst snd closed close]; discriminate|].
+      [rewrite ?close_closed; cbn [fst snd closed]; discriminate|].
     destruct (Z.ltb_spec (nr + 1) (INITIAL - (holder_next s + 1))) as [_|Hnr]; [cbn [fst snd]; congruence|].
     rewrite Hready. cbn [negb]. unfold reest_revoke. sf.
     assert (Hsc : nr = 0 \/ sc = SecMatch).
@@ -711,16 +901,16 @@ Section Proofs.
       destruct (Z.eqb_spec nl (INITIAL - cp_next s + (if awaiting_rr s then 1 else 0))) as [Enl|Nnl].
       + cbn [fst snd]. sf. intros _ _. repeat split; auto. intros e [].
       + destruct (Z.eqb_spec nl (INITIAL - cp_next s + (if awaiting_rr s then 1 else 0) - 1)) as [Enl1|_];
-          [|cbn [fst snd closed close]; discriminate].
+          [|rewrite ?close_closed; cbn [fst snd closed]; discriminate].
         destruct (mon_in_progress s); cbn [fst snd app]; sf; intros _ _; repeat split; auto.
         * intros e [].
         * unfold last_cs. sf. intros e [<-|[]]. right. split; [reflexivity|exact Enl1].
     - destruct (Z.eqb_spec (nr + 1) (INITIAL - (holder_next s + 1))) as [Enr1|_];
-        [|cbn [fst snd closed close]; discriminate].
+        [|rewrite ?close_closed; cbn [fst snd closed]; discriminate].
       destruct (mon_in_progress s) eqn:Em; unfold reest_commit; sf;
         destruct (Z.eqb_spec nl (INITIAL - cp_next s + (if awaiting_rr s then 1 else 0))) as [Enl|Nnl];
         try (destruct (Z.eqb_spec nl (INITIAL - cp_next s + (if awaiting_rr s then 1 else 0) - 1)) as [Enl1|_];
-             [|cbn [fst snd closed close]; discriminate]);
+             [|rewrite ?close_closed; cbn [fst snd closed]; discriminate]);
         rewrite ?Em; cbn [fst snd app]; sf; intros _ _; repeat split; auto; unfold last_raa, last_cs; sf.
       + intros e [].
       + intros e [].
@@ -748,10 +938,50 @@ Section Proofs.
     set (dec := if chan_ready (hsk s) then _ else _).
     assert (E : fst dec = true).
     { unfold dec. destruct Hph as [->|[-> ->]]; [reflexivity|]. destruct (chan_ready (hsk s)); reflexivity. }
-    rewrite E. destruct (opt_point_eqb _ _ _ _); cbn [fst snd close]; sf.
-    - repeat split; auto; try (intros k q []).
-    - destruct (chan_ready (hsk s) || negb (wfb (hsk s)));
-        repeat split; auto; try discriminate; try (intros k q [H|[]]; discriminate H); try (intros k q []).
+    rewrite E. destruct (opt_point_eqb _ _ _ _).
+    - cbn [fst snd]. repeat split; auto; try (intros k q []).
+    - destruct (close_facts s []) as (H1 & H2 & H3 & H4). rewrite close_closed.
+      repeat split; auto; try discriminate.
+  Qed.
+
+  (** * A revoke_and_ack nobody asked for is refused in EVERY state
+
+      Whatever the other flags say -- a monitor update in progress, our stfu sent, disconnected,
+      a locked monitor -- a revoke_and_ack received while [AWAITING_REMOTE_REVOKE] is not set never
+      advances the counterparty commitment number, validates or stores nothing and announces nothing;
+      it closes the channel (or, while quiescent, is ignored with a warning). *)
+  Lemma close_cp_next s evs : cp_next (fst (close s evs)) = cp_next s.
+  Proof.
+    unfold close. destruct (mon_signed (ext s)); [reflexivity|].
+    destruct (chan_ready (hsk s) || negb (wfb (hsk s))); reflexivity.
+  Qed.
+
+  Lemma close_events s : snd (close s []) = [] \/ snd (close s []) = [SignHolder (holder_next s + 1)].
+  Proof.
+    unfold close. destruct (mon_signed (ext s)); [left; reflexivity|].
+    destruct (chan_ready (hsk s) || negb (wfb (hsk s))); [right|left]; reflexivity.
+  Qed.
+
+  Lemma unsolicited_revocation_rejected s sec np chain_ok commit sync :
+    closed s = false -> awaiting_rr s = false ->
+    let s' := fst (step s (ORecvRAA sec np chain_ok commit sync)) in
+    let evs := snd (step s (ORecvRAA sec np chain_ok commit sync)) in
+    cp_next s' = cp_next s /\ cp_cur_point s' = cp_cur_point s /\ cp_next_point s' = cp_next_point s /\
+    (evs = [] \/ evs = [SignHolder (holder_next s + 1)]) /\
+    (if quiescent (ext s) then s' = s else closed s' = true).
+  Proof.
+    intros Hc Ha. cbv zeta. unfold step. rewrite Hc, Ha.
+    destruct (quiescent (ext s)); [cbn [fst snd]; repeat split; auto|].
+    assert (H : cp_next (fst (close s [])) = cp_next s /\ cp_cur_point (fst (close s [])) = cp_cur_point s /\
+                cp_next_point (fst (close s [])) = cp_next_point s /\
+                (snd (close s []) = [] \/ snd (close s []) = [SignHolder (holder_next s + 1)]) /\
+                closed (fst (close s [])) = true).
+    { destruct (close_facts s []) as (H1 & H2 & _ & _).
+      repeat split; auto using close_cp_next, close_events, close_closed. }
+    destruct (negb (chan_ready (hsk s))); [exact H|].
+    destruct (disconnected s); [exact H|].
+    destruct (match cp_cur_point s with Some p => negb (point_eqb (pub sec) p) | None => false end); [exact H|].
+    cbn [negb]. exact H.
   Qed.
 
   (* ---------------------------------------------------------------------------------------- *)
@@ -763,7 +993,7 @@ Section Proofs.
   Lemma run_release_after_newer batch p0 ops pre k post :
     machine_log batch p0 ops = pre ++ Release k :: post ->
     (exists n, In (ValidateHolder (k - 1) n n) pre) /\
-    (forall k', ~ In (SignHolder k') pre) /\
+    (forall k', In (SignHolder k') pre -> k' < k) /\
     (forall k', In (SignHolder k') post -> k' < k).
   Proof.
     intros E. destruct (policy_holds batch p0 ops) as (g & Hg).
@@ -772,12 +1002,22 @@ Section Proofs.
 
   Lemma run_sign_holder_unrevoked batch p0 ops pre k post :
     machine_log batch p0 ops = pre ++ SignHolder k :: post ->
-    (forall j, In (Release j) pre -> k < j) /\
-    (forall e, In e post -> exists k', e = SignHolder k').
+    (k = INITIAL \/ exists n, In (ValidateHolder k n n) pre) /\
+    (forall j, In (Release j) pre -> k < j).
   Proof.
     intros E. destruct (policy_holds batch p0 ops) as (g & Hg).
-    destruct (acc_sign_holder _ _ Hg pre k post E) as (_ & H2 & H3). split; [exact H2|].
-    intros e Hin. specialize (H3 e Hin). destruct e; try discriminate. eexists; reflexivity.
+    destruct (acc_sign_holder _ _ Hg pre k post E) as (_ & H2 & H3 & _). auto.
+  Qed.
+
+  (** once a holder commitment was signed for broadcast -- by a close, or by the monitor on the
+      user's request while the channel is still open -- its secret (and that of any newer one) is
+      never released *)
+  Lemma run_no_release_after_holder_broadcast batch p0 ops pre k post :
+    machine_log batch p0 ops = pre ++ SignHolder k :: post ->
+    forall j, In (Release j) post -> k < j.
+  Proof.
+    intros E. destruct (policy_holds batch p0 ops) as (g & Hg).
+    exact (proj2 (proj2 (proj2 (acc_sign_holder _ _ Hg pre k post E)))).
   Qed.
 
   Lemma run_single_outstanding batch p0 ops pre k post :
@@ -793,7 +1033,7 @@ Section Proofs.
     match e with
     | ValidateHolder k nsig nnd => k = INITIAL - 1 - count is_vh pre /\ nsig = nnd
     | Release k => k = INITIAL + 1 - count is_vh pre
-    | SignHolder k => k = INITIAL - count is_vh pre
+    | SignHolder k => INITIAL - count is_vh pre <= k <= INITIAL
     | ValidateRevocation k => k = INITIAL - count is_vr pre /\ count is_store pre = count is_vr pre
     | StoreSecret k _ => k = INITIAL - count is_store pre
     | SignCounterparty k => k = INITIAL - 1 - count is_store pre
@@ -837,7 +1077,7 @@ Section Proofs.
     destruct (run_sim ops _ _ g0 Hg0 HR0) as (g & Hg & HR). unfold machine_log.
     destruct (chk_all_counts _ _ _ Hg) as (Hv & Hst & _). cbn [pol_init p_vh p_st] in *.
     split.
-    - pose proof (R_vh _ _ HR). lia.
+    - pose proof (R_vh _ _ (R_c _ _ HR)). lia.
     - intros Hc. pose proof (R_st _ _ HR Hc). lia.
   Qed.
 End Proofs.
@@ -878,13 +1118,50 @@ Proof.
 Qed.
 
 (* ------------------------------------------------------------------------------------------ *)
-(** * Source pins (coq/Gen/C05Pins.v is regenerated from channel.rs on every run)
+(** * A second refuted statement (witness replayed on the real code by
+      harness/src/bin/h_early_raa_probe.rs; known finding C05-F2)
 
-    The two comparisons the machine transliterates -- [negb (nsig =? nnd)] in [ORecvCS] and
-    [their_ready && negb our_ready] (flags with WAITING_FOR_BATCH cleared equal THEIR_CHANNEL_READY)
-    in [recv_channel_ready] -- are, in the source, exactly these. *)
+    "The node accepts a revocation of counterparty commitment k only after it has signed k-1, and
+    it signs the numbers INITIAL-1, INITIAL-2, ... without a gap" is FALSE for the machine and for
+    the code: [revoke_and_ack] tests AWAITING_REMOTE_REVOKE, which [build_commitment_no_status_check]
+    sets when the commitment is BUILT; with a ChannelMonitorUpdate in flight the commitment_signed
+    is only signed in [monitor_updating_restored]. A revoke_and_ack arriving in between is accepted,
+    the counterparty number advances, and the restore then signs the NEXT number -- one that was
+    never built, never handed to the monitor -- skipping a number at the signer. *)
+Lemma early_revocation_witness :
+  exists (ops : list (op Z Z)),
+    let '(s, log) := zrun (init Z Z false 100) (init_log Z Z 100) ops in
+    closed s = false /\ awaiting_rr s = false /\ mon_in_progress s = false /\
+    In (StoreSecret INITIAL 100) log /\
+    ~ In (SignCounterparty (INITIAL - 1)) log /\
+    In (SignCounterparty (INITIAL - 2)) log.
+Proof.
+  exists [OOurChannelReady; ORecvChannelReady 101; OCommit false; ORecvRAA 100 102 true false false; OMonitorDone].
+  vm_compute. repeat split; try reflexivity.
+  - right. right. right. left. reflexivity.
+  - intros H. repeat (destruct H as [H|H]; [discriminate H|]). exact H.
+  - do 5 right. left. reflexivity.
+Qed.
+
+(* ------------------------------------------------------------------------------------------ *)
+(** * Source pins (coq/Gen/C05Pins.v is regenerated from the sources on every run)
+
+    The comparisons the machine transliterates are, in the source, exactly these:
+    [negb (nsig =? nnd)] in [ORecvCS]; [their_ready && negb our_ready] (flags with WAITING_FOR_BATCH
+    cleared equal THEIR_CHANNEL_READY) in [recv_channel_ready]; [negb (awaiting_rr s)] -- and nothing
+    else -- as the "unexpected revoke_and_ack" guard of [ORecvRAA]; the five conjuncts of
+    [can_generate_new_commitment]; the monitor sets [holder_tx_signed] inside the one function every
+    path that queues the funding claim goes through ([generate_claimable_outpoints_and_watch_outputs],
+    before its manual-broadcast early return), which is what [mon_sign] / [close] do with
+    [mon_signed]; and [no_further_updates_allowed] looks at [holder_tx_signed] ([mon_locked]). *)
 Lemma source_pins :
   htlc_sig_count_test = "msg.htlc_signatures.len() != commitment_data.tx.nondust_htlcs().len()"%string /\
   channel_ready_resend_test =
-    "flags.clone().clear(AwaitingChannelReadyFlags::WAITING_FOR_BATCH) == AwaitingChannelReadyFlags::THEIR_CHANNEL_READY"%string.
-Proof. split; reflexivity. Qed.
+    "flags.clone().clear(AwaitingChannelReadyFlags::WAITING_FOR_BATCH) == AwaitingChannelReadyFlags::THEIR_CHANNEL_READY"%string /\
+  raa_unexpected_test = "!self.context.channel_state.is_awaiting_remote_revoke()"%string /\
+  can_generate_new_commitment_test =
+    "!flags.is_set(ChannelReadyFlags::AWAITING_REMOTE_REVOKE) && !flags.is_set(ChannelReadyFlags::LOCAL_STFU_SENT) && !flags.is_set(ChannelReadyFlags::QUIESCENT) && !flags.is_set(FundedStateFlags::MONITOR_UPDATE_IN_PROGRESS.into()) && !flags.is_set(FundedStateFlags::PEER_DISCONNECTED.into())"%string /\
+  monitor_lock_in_claim_generation = "self.holder_tx_signed = true;"%string /\
+  monitor_no_further_updates_test =
+    "self.funding_spend_seen || self.lockdown_from_offchain || self.holder_tx_signed"%string.
+Proof. repeat split; reflexivity. Qed.
